@@ -36,6 +36,11 @@ CHECKS = {
    "DESIGN.md 6 C18",
    "Trusted: VC generator, go/types, solvers; POSIX O_EXCL contract of pathlib.OpenFile; yaml.v3 Encoder; koanf Load/Unmarshal; cobra.ExactArgs(1).",
    "contract-based deductive verification: call-site (site) obligations with ghost call counters and an FS-effect frame on the real initRun, z3/cvc5"),
+ "C11": ("proof",
+   "On the real Config.ParseTemplates, for all inputs: every template execution receives data with the documented bindings (Mock = Mock/mock by exportedness, InterfaceName, InterfaceFile, InterfaceDir, SrcPackageName, SrcPackagePath, StructName, Template, ConfigDir = dir of the config parameter) and the function library attached; err == nil implies that each of dir, filename, pkgname, structname and template-schema renders to itself (fixpoint; inductive invariant over a ghost visited set of the attribute map, pairwise-distinct attribute pointers as precondition); the outer loop has variant 21 - i, and reaching the 20-pass cap returns a non-nil error with nothing truncated. Partial: FindConfig, and the documented bases of ConfigDir/InterfaceDirRelative when the file was found by search (finding D11), are not covered.",
+   "DESIGN.md 6 C11",
+   "Trusted: VC generator, go/types, solvers; text/template rendering as a deterministic function render(text, data); bytes.Buffer; ast.IsExported/pathlib/filepath uninterpreted; axiom ErrInfiniteLoop != nil.",
+   "contract-based deductive verification: call-site obligations for the bindings, loop invariants + variant for fixpoint and termination on the real ParseTemplates, z3/cvc5"),
 }
 
 NOT_APPLICABLE = {
